@@ -8,7 +8,8 @@ RULE = ("M: on toy curves, for every scalar k and every shift d: [k]G + [d]G = [
         "toy-instantiated secp256k1 implementation for every (k, d) with d in 0..n+2 in 1- and 2-byte encodings, d=256, d=255: both invalid or "
         "both succeed with the specification's scalar and point, no panic. T: real secp256k1 and P-256: seeded parents x special shifts (0, k, n-k, "
         "n, n+j, n-1, 2^256-1, random) judged by TLC with BigNat (k+d = q*n + s certificate) and both derivation orders of DeriveChild (key bytes, "
-        "chain code, fingerprint equal). Distinct by (op,input).")
+        "chain code, fingerprint equal). Verdicts come from the production curves: a toy-table deviation counts together with a real-size one, alone "
+        "it triggers a larger real-size campaign and otherwise only skips the toy leg. Distinct by (op,input).")
 
 
 def run(ctx):
@@ -19,9 +20,7 @@ def run(ctx):
     vec = [v for v in vlib.read_ndjson(gen) if v["op"] == "shift.s"]
     binp = ec.elliptic_driver(ctx)
     d = ctx.rundir("drv")
-    vlib.write_ndjson(d + "/in.ndjson", vec)
-    vlib.run_driver(ctx, binp, "replay", d + "/g.ndjson", infile=d + "/in.ndjson")
-    g = vlib.read_ndjson(d + "/g.ndjson")
+    g = ec.replay_toy(ctx, binp, vec, d)
     vlib.run_driver(ctx, binp, "record", d + "/t.ndjson", n=64 if q else 1600)
     t = vlib.read_ndjson(d + "/t.ndjson")
     for e in g:
@@ -31,7 +30,11 @@ def run(ctx):
     vlib.note_events(ctx, g + t, keep=0)
     for e in g[:2] + t[:3]:
         ctx.samples.append(ec.slim(e))
-    ec.judge(ctx, [("elliptic", binp, g + t)], "shifting the private key and shifting its public key disagree (validity, result or panic)")
+    def escalate(label, b):
+        dd = ctx.rundir("escalate")
+        vlib.run_driver(ctx, b, "record", dd + "/t.ndjson", n=800)
+        return vlib.read_ndjson(dd + "/t.ndjson")
+    ec.judge(ctx, [("elliptic", binp, g + t)], "shifting the private key and shifting its public key disagree (validity, result or panic)", escalate=escalate)
     return vlib.finish(ctx, LEVEL, RULE, ec.ASSUME, matchers=ec.MATCHERS,
                        technique="TLA+ spec ECGroup/ECTrace: toy-curve model; complete (k,d) tables replayed through the real Shift code on a toy-instantiated curve; real-size shifts judged by TLC with BigNat certificates")
 
